@@ -22,7 +22,10 @@ def _tables(ctx) -> Dict[str, Set[str]]:
     out = {}
     for role, name in TABLES.items():
         mm, node = _table_node(ctx, name)
-        v = ctx.prog.const_value(mm, node)
+        # the table as it stands after the module's top-level statements (later .update(..) / |= folded in)
+        folded = ctx.prog.module_consts(mm)
+        real = next((k_ for k_, v_ in mm.constants.items() if v_ is node), name)
+        v = folded[real] if real in folded and isinstance(folded[real], (set, frozenset, tuple, list)) else ctx.prog.const_value(mm, node)
         out[role] = set(v)
     return out
 
